@@ -212,6 +212,23 @@ type reasonErr struct {
 func (e reasonErr) Error() string           { return e.msg }
 func (e reasonErr) ResultReason() kmip.Enum { return e.reason }
 
+// error values with a pkg/errors-style cause chain: the OUTCOME of the item is what the handler returned (its own
+// message, its own ResultReason if it has one), whatever its causes say
+type causedErr struct {
+	msg   string
+	cause error
+}
+
+func (e causedErr) Error() string { return e.msg }
+func (e causedErr) Cause() error  { return e.cause }
+
+type causedReasonErr struct {
+	reasonErr
+	cause error
+}
+
+func (e causedReasonErr) Cause() error { return e.cause }
+
 var unencodables = []func() interface{}{
 	func() interface{} { return 42 },
 	func() interface{} { return map[string]int{"a": 1} },
@@ -333,9 +350,22 @@ func runSessions(runs []*sessionRun, pipelined bool, T time.Duration, r *rand.Ra
 			case 'n':
 				return nil, nil
 			case 'e':
+				switch id % 3 {
+				case 1: // no result reason of its own; its cause has one (must not be reported)
+					return nil, causedErr{fmt.Sprintf("m%d", b.msg), reasonErr{"inner", kmip.RESULT_REASON_PERMISSION_DENIED}}
+				case 2:
+					return nil, causedErr{fmt.Sprintf("m%d", b.msg), fmt.Errorf("inner")}
+				}
 				return nil, fmt.Errorf("m%d", b.msg)
 			case 'r':
-				return nil, reasonErr{fmt.Sprintf("m%d", b.msg), kmip.Enum(b.reason)}
+				own := reasonErr{fmt.Sprintf("m%d", b.msg), kmip.Enum(b.reason)}
+				switch id % 3 {
+				case 1: // its cause carries a different reason
+					return nil, causedReasonErr{own, reasonErr{"inner", kmip.RESULT_REASON_ITEM_NOT_FOUND}}
+				case 2: // its cause is a plain error
+					return nil, causedReasonErr{own, fmt.Errorf("inner")}
+				}
+				return nil, own
 			default:
 				if id%2 == 0 {
 					panic(fmt.Sprintf("m%d", b.msg))
